@@ -999,14 +999,15 @@ func ReturnValues(fn *ssa.Function, idx int) []RetVal {
 		switch x := v.(type) {
 		case *ssa.UnOp:
 			if x.Op == token.MUL {
-				if a, ok := x.X.(*ssa.Alloc); ok {
+				if a, ok := x.X.(*ssa.Alloc); ok && isNamedResult(fn, a) {
 					if seenAlloc[a] {
 						return
 					}
 					seenAlloc[a] = true
 					n := 0
-					for _, ref := range *a.Referrers() {
-						if st, ok := ref.(*ssa.Store); ok && st.Addr == ssa.Value(a) {
+					for _, ref := range allRefsDeep(a) {
+						// stores into the slot or into one of its fields
+						if st, ok := ref.(*ssa.Store); ok && allocRoot(st.Addr) == a {
 							n++
 							addVal(st.Val, st, depth+1)
 						}
@@ -1233,4 +1234,41 @@ func SameLoad(a, b ssa.Value) bool {
 		}
 	}
 	return true
+}
+
+// isNamedResult reports whether alloc a is the spill slot of a function
+// result: a named result, or a slot whose loads are only ever returned.
+func isNamedResult(fn *ssa.Function, a *ssa.Alloc) bool {
+	res := fn.Signature.Results()
+	for i := 0; i < res.Len(); i++ {
+		if res.At(i).Name() != "" && res.At(i).Name() == a.Comment {
+			return true
+		}
+	}
+	if a.Referrers() == nil {
+		return false
+	}
+	loads := 0
+	for _, ref := range *a.Referrers() {
+		switch x := ref.(type) {
+		case *ssa.Store:
+			if x.Addr != ssa.Value(a) {
+				return false
+			}
+		case *ssa.UnOp:
+			loads++
+			if x.Referrers() == nil {
+				return false
+			}
+			for _, rr := range *x.Referrers() {
+				if _, isRet := rr.(*ssa.Return); !isRet {
+					return false
+				}
+			}
+		case *ssa.DebugRef:
+		default:
+			return false
+		}
+	}
+	return loads > 0
 }
